@@ -13,7 +13,7 @@ RULE = ('one run = 1-12 connections on one real executor (local queue or remote 
         'or normal completion), sequentially or overlapping; after the last one the simulated descriptor table, '
         'the selector (Python map and kernel interest set) and the executor registries must be back to '
         'baseline; non-trivial = at least one connection ended by an abort; distinct = distinct event-log digests')
-PROBES = ['forward', 'tunnel', 'web', 'static', 'reverse', 'rejected', 'client_close', 'client_reset',
+PROBES = ['front_tls', 'failed_front_handshake', 'forward', 'tunnel', 'web', 'static', 'reverse', 'rejected', 'client_close', 'client_reset',
           'client_shut_wr', 'upstream_close', 'upstream_reset', 'connect_fail', 'errno_injected', 'idle_timeout',
           'normal', 'remote_executor', 'repeated', 'overlapping', 'fd_reused', 'gc_closed_socket']
 COMPONENTS = {
@@ -33,8 +33,15 @@ TIERS = {
 STATE_MEASURE = 'distinct (role, cut point class, abort kind, executor flavour) tuples of the connections run'
 
 
+_px: Dict[str, Any] = {}
+
+
 def setup_worker(job: Dict[str, Any]) -> None:
     import os
+    from ..tls import fixtures, origin_cert
+    px = fixtures(job['scratch'])
+    _px.update(px)
+    _px['front'] = origin_cert(px, 'proxy.example', 'good')     # the proxy's own TLS front (--cert-file / --key-file)
     d = os.path.join(job['scratch'], 'static10')
     os.makedirs(os.path.join(d, 'sub'), exist_ok=True)
     with open(os.path.join(d, 'a.txt'), 'wb') as f:
@@ -64,6 +71,14 @@ def run_one(tape: Any, cfg: Dict[str, Any], forbid: FrozenSet[str] = frozenset()
         route = make_web_route_plugin(1, r'/web', lambda tg: b'web-reply:' + tg + b'x' * 50)
         rp = make_reverse_plugin([(r'/rev', [b'http://10.0.0.3/base'])])
         import os
+        # a TLS front: the handshake happens inside the work's initialize(); clients that speak plaintext make it fail
+        front_tls = g.feature('front_tls', 0.15)
+        if front_tls:
+            w.probe('front_tls')
+            opts = dict(opts, cert_file=_px['front']['cert'], key_file=_px['front']['key'])
+            # (a receive buffer below the TLS record size leaves plaintext inside OpenSSL, invisible to select(): a separate
+            # question, as in C11 and C12 - the knob stays at its default next to TLS)
+            opts.pop('client_recvbuf_size', None)
         static_dir = os.path.join(scratch_dir(), 'static10')
         files_before = scen.real_fds_under(static_dir)
         flags = make_flags(['--enable-reverse-proxy'], threadless=True, local_executor=0 if remote else 1,
@@ -168,6 +183,18 @@ def run_one(tape: Any, cfg: Dict[str, Any], forbid: FrozenSet[str] = frozenset()
                 req = [b'garbage\r\n\r\n', b'GET ftp://x/ HTTP/1.1\r\n\r\n', b'GET /\xff HTTP/1.1\r\n\r\n'][tape.draw(3, 'rej')]
                 full = [('send', req, 'burst'), ('wait_eof',)]
             script: List[Any] = [('sleep', t0), ('connect',)] if t0 > 0 else [('connect',)]
+            if front_tls:
+                if tape.coin(0.5, 'speaks-tls'):
+                    import ssl
+                    script += [('tls_client', ssl.create_default_context(cafile=_px['pub_cert']), 'proxy.example'), ('wait_tls',)]
+                else:
+                    # plaintext on the TLS port: the handshake fails and with it initialize().  The bytes go out at once and the
+                    # client goes away (a peer that stays silent holds the blocking handshake, which is not this property)
+                    w.probe('failed_front_handshake')
+                    if ending in ('idle', 'client_shut_wr'):
+                        ending = 'client_close'
+                    full = [('send', req if len(req) >= 8 else req + b'padding-', 'burst')]
+                    cut_frac = 0
             if cut_frac:
                 # cut: keep a prefix of the script; the last kept send is itself truncated
                 keep = max(1, (len(full) * cut_frac) // 5)
